@@ -54,7 +54,7 @@ Section Proofs.
     | EPubV e => exists nv, p = PSavedV nv e /\ w' = w
     | EPubC e => (exists nv, p = PSavedC nv e /\ w' = w) \/ (exists seen n r, p = PDel seen n /\ p' = PDone r)
     | ESubV ro => c = CSubV ro /\ w' = w /\ p = PStart
-    | ESubC ro => c = CSubC ro /\ w' = w /\ p = PStart
+    | ESubC ro => w' = w /\ (p = PStart \/ p = POpen)
     end /\
     (* a parked publication is published by the next step of its thread and by nothing else *)
     match p with
@@ -64,12 +64,12 @@ Section Proofs.
     end /\
     (* a step that parks a publication publishes nothing itself *)
     match p' with
-    | PSavedV _ _ | PSavedC _ _ | PRead _ _ | PDel _ _ | PStart => eff = ENone
+    | PSavedV _ _ | PSavedC _ _ | PRead _ _ | PDel _ _ | PStart | POpen => eff = ENone
     | PDone _ => True
     end.
   Proof.
     unfold Lts.trans. intros H.
-    destruct c as [msg o|id0 msg o|id0 o|ro|ro]; destruct p as [|old cr|nv e|nv e|seen n|r]; try discriminate.
+    destruct c as [msg o|id0 msg o|id0 o|ro|ro|id1 ro]; destruct p as [|old cr|nv e|nv e|seen n|r|]; try discriminate.
     - destruct (w_validate (wo_writer o)); inversion H; subst; simpl; auto.
     - destruct (change_fn m_eqb m_empty w_merge o msg old); [|inversion H; subst; simpl; auto].
       destruct (om_eqb m_eqb old (v_val (w_v w))); [|inversion H; subst; simpl; auto].
@@ -91,6 +91,8 @@ Section Proofs.
       repeat split; auto. right. eauto.
     - inversion H; subst; simpl; auto.
     - inversion H; subst; simpl; auto.
+    - inversion H; subst; simpl; auto.
+    - inversion H; subst; simpl; auto.
   Qed.
 
   (* the Value changes exactly at the save step of a Set, to the value the parked event carries *)
@@ -102,7 +104,7 @@ Section Proofs.
     end.
   Proof.
     unfold Lts.trans. intros H.
-    destruct c as [msg o|id0 msg o|id0 o|ro|ro]; destruct p as [|old cr|nv e|nv e|seen n|r]; try discriminate.
+    destruct c as [msg o|id0 msg o|id0 o|ro|ro|id1 ro]; destruct p as [|old cr|nv e|nv e|seen n|r|]; try discriminate.
     - destruct (w_validate (wo_writer o)); inversion H; subst; reflexivity.
     - destruct (change_fn m_eqb m_empty w_merge o msg old); [|inversion H; subst; reflexivity].
       destruct (om_eqb m_eqb old (v_val (w_v w))); [|inversion H; subst; reflexivity].
@@ -123,6 +125,8 @@ Section Proofs.
       destruct (update_time clock_at o (c_reads (w_c w))) as [t reads]. inversion H; subst; reflexivity.
     - inversion H; subst; reflexivity.
     - inversion H; subst; reflexivity.
+    - inversion H; subst; reflexivity.
+    - inversion H; subst; reflexivity.
   Qed.
 
   (* the reference's events describe its transitions (PullProofs.step_events, per call) *)
@@ -132,7 +136,7 @@ Section Proofs.
     (cev = [] /\ c_items (snd vc') = c_items (snd vc)) \/
     (exists e, cev = [e] /\ describes e (c_items (snd vc)) (c_items (snd vc'))).
   Proof.
-    intros Hok Hs H. destruct c as [msg o|id0 msg o|id0 o|ro|ro]; simpl in H.
+    intros Hok Hs H. destruct c as [msg o|id0 msg o|id0 o|ro|ro|id1 ro]; simpl in H.
     - destruct (set_ref m_eqb m_empty w_validate w_merge clock_at (fst vc) msg o) as [[v' r'] ev]. inversion H. subst. left. auto.
     - simpl in Hok.
       pose proof (spec_update_eq m_eqb m_empty w_validate w_merge clock_at str_ltb idfun (snd vc) id0 msg o Hok) as E.
@@ -145,6 +149,7 @@ Section Proofs.
       assert (S : spec_step m_eqb m_empty w_validate w_merge r_filter clock_at str_ltb idfun (snd vc) (@ODelete M writer rmask id0 o) = (c1, RDelete r1 e1, cev)).
       { simpl. rewrite U. reflexivity. }
       destruct (@step_events _ m_eqb m_empty _ w_validate w_merge _ r_filter clock_at str_ltb idfun ltb_irrefl ltb_trans _ _ _ _ _ S Hs) as [[A B]|(e & A & B & _)]; [left|right]; simpl; eauto.
+    - inversion H. subst. left. auto.
     - inversion H. subst. left. auto.
     - inversion H. subst. left. auto.
   Qed.
@@ -198,7 +203,13 @@ Section Proofs.
   (* what a Collection subscriber holds: the fold of everything it received *)
   Definition cstream (u : csub) : list (cchange M) := pull_collection r_filter None (cs_at u) (cs_ro u) (cs_evs u).
   Definition cview (u : csub) : list (string * M) := fold_view (cstream u).
-  Definition plain_sub (u : csub) : Prop := ro_include (cs_ro u) = None /\ ro_updates_only (cs_ro u) = false.
+  (* seeded subscriptions: any read mask, any include predicate *)
+  Definition plain_sub (u : csub) : Prop := ro_updates_only (cs_ro u) = false.
+  (* updates-only subscriptions (no include predicate): the view is right at every id an event mentioned *)
+  Definition uo_sub (u : csub) : Prop := ro_include (cs_ro u) = None /\ ro_updates_only (cs_ro u) = true.
+  Definition touched (u : csub) (id : string) : Prop := In id (map (@ce_id M) (cs_evs u)).
+  Definition uview_inv (u : csub) (l : list (string * item)) : Prop :=
+    NoDup (map fst (cview u)) /\ forall id, touched u id -> vlookup id (cview u) = shown r_filter (cs_ro u) id l.
 
   Lemma cview_snoc tid ro at_ evs e sk :
     cview (mkCS tid ro at_ (evs ++ [e]) sk) =
@@ -233,6 +244,58 @@ Section Proofs.
                 fold_left (@apply_change M) (c_forward_gen r_filter None false false ro [e']) view).
     { simpl. rewrite RI. simpl. unfold apply_change. simpl. reflexivity. }
     rewrite E. exact K.
+  Qed.
+
+  (* an updates-only view: one described event keeps it right at every id mentioned so far *)
+  Lemma forward_one_uo ro (e : cevent) l l' view (P : string -> Prop) :
+    ro_include ro = None -> describes e l l' ->
+    NoDup (map fst view) -> (forall id, P id -> vlookup id view = shown r_filter ro id l) ->
+    let view' := fold_left (@apply_change M) (c_forward_gen r_filter None false false ro [e]) view in
+    NoDup (map fst view') /\ forall id, (P id \/ id = ce_id e) -> vlookup id view' = shown r_filter ro id l'.
+  Proof.
+    intros RI D Hnd Hv. simpl. rewrite RI. simpl. unfold apply_change. simpl.
+    assert (Hother : forall v', (forall id', id' <> ce_id e -> vlookup id' v' = vlookup id' view) ->
+                                forall id', id' <> ce_id e -> P id' -> vlookup id' v' = shown r_filter ro id' l').
+    { intros v' Hsame id' Hne Hp. rewrite Hsame by exact Hne. rewrite Hv by exact Hp. unfold shown.
+      rewrite (d_frame D) by exact Hne. reflexivity. }
+    destruct (lookup (ce_id e) l') as [it'|] eqn:L'.
+    - assert (K : ce_kind e <> KRemove).
+      { intros C. apply (proj1 (d_kind D)) in C. rewrite (d_new D) in C. unfold body_at in C. rewrite L' in C. discriminate. }
+      rewrite (d_new D). unfold body_at. rewrite L'. simpl.
+      assert (G : NoDup (map fst (view_set (ce_id e) (filt ro (it_body it')) view)) /\
+                  forall id, (P id \/ id = ce_id e) ->
+                             vlookup id (view_set (ce_id e) (filt ro (it_body it')) view) = shown r_filter ro id l').
+      { split; [apply view_set_nodup; exact Hnd|].
+        intros id' Hid. destruct (String.eqb_spec id' (ce_id e)) as [->|Hne].
+        - rewrite vlookup_set_same. unfold shown, pred_of. rewrite RI, L'. reflexivity.
+        - destruct Hid as [Hp|C]; [|contradiction].
+          apply Hother; [intros; apply vlookup_set_other; assumption|exact Hne|exact Hp]. }
+      destruct (ce_kind e); try congruence; exact G.
+    - assert (N : ce_new e = None) by (rewrite (d_new D); unfold body_at; rewrite L'; reflexivity).
+      assert (K : ce_kind e = KRemove).
+      { destruct (ce_kind e) eqn:EK; try reflexivity; exfalso;
+          apply (proj2 (d_kind D)); try exact N; rewrite EK; discriminate. }
+      rewrite K. split; [apply view_del_nodup; exact Hnd|].
+      intros id' Hid. destruct (String.eqb_spec id' (ce_id e)) as [->|Hne].
+      + rewrite vlookup_del_same by exact Hnd. unfold shown. rewrite L'. reflexivity.
+      + destruct Hid as [Hp|C]; [|contradiction].
+        apply Hother; [intros; apply vlookup_del_other; assumption|exact Hne|exact Hp].
+  Qed.
+
+  Lemma uview_snoc tid ro at_ evs e sk l l' :
+    ro_include ro = None -> describes e l l' ->
+    uview_inv (mkCS tid ro at_ evs sk) l -> uview_inv (mkCS tid ro at_ (evs ++ [e]) sk) l'.
+  Proof.
+    intros RI D [Hnd Hv]. unfold uview_inv. rewrite cview_snoc. simpl cs_ro in *.
+    destruct (@forward_one_uo ro e l l' _ (touched (mkCS tid ro at_ evs sk)) RI D Hnd Hv) as [A B].
+    split; [exact A|]. intros id Hid. apply B. unfold touched in *. simpl in *.
+    rewrite map_app in Hid. apply in_app_or in Hid. destruct Hid as [Hid|[<-|[]]]; auto.
+  Qed.
+
+  Lemma uview_fresh tid ro (c : cstate) sk l : ro_updates_only ro = true -> uview_inv (mkCS tid ro c [] sk) l.
+  Proof.
+    intros UO. unfold uview_inv, cview, cstream, fold_view, pull_collection, pull_collection_gen. simpl. rewrite UO.
+    simpl. split; [constructor|]. intros id [].
   Qed.
 
   (* ================= all programs, all schedules ================= *)
@@ -282,7 +345,18 @@ Section Proofs.
            end;
     (* a snapshot is only ever ahead of threads that have committed *)
     si_skip : forall u a, In u (st_csubs s) -> In a (cs_skip u) ->
-              exists p, nth_error (st_pcs s) a = Some p /\ (is_pc p = true \/ is_done p = true)
+              exists p, nth_error (st_pcs s) a = Some p /\ (is_pc p = true \/ is_done p = true);
+    (* updates-only subscriptions: right at every id mentioned so far; they drop nothing *)
+    si_cu : st_overlap s = false ->
+            match st_pendc s with
+            | [] => forall u, In u (st_csubs s) -> uo_sub u -> uview_inv u (c_items (w_c (st_w s)))
+            | [t] => exists nv e lprev,
+                       nth_error (st_pcs s) t = Some (PSavedC nv e) /\
+                       describes e lprev (c_items (w_c (st_w s))) /\
+                       forall u, In u (st_csubs s) -> uo_sub u -> uview_inv u lprev
+            | _ => False
+            end;
+    si_uskip : forall u, In u (st_csubs s) -> ro_updates_only (cs_ro u) = true -> cs_skip u = []
   }.
 
   Lemma sinv_init : SInv s0.
@@ -295,6 +369,8 @@ Section Proofs.
     - intros _ u [].
     - intros _ u [].
     - intros u a [].
+    - intros _ u [].
+    - intros u [].
   Qed.
 
   Lemma drop_tid_notin t l : ~ In t l -> drop_tid t l = l.
@@ -355,11 +431,11 @@ Section Proofs.
       intros Ho. apply orb_false_iff in Ho. destruct Ho as [Ho1 Ho2]. pose proof (si_v SI Ho1) as V.
       rewrite match_pv. destruct (is_pv p') eqn:PV.
       + (* the save of a Set *)
-        destruct p' as [| | nv e | | |]; try discriminate. apply is_nil_false in Ho2. rewrite Ho2. simpl.
+        destruct p' as [| | nv e | | | |]; try discriminate. apply is_nil_false in Ho2. rewrite Ho2. simpl.
         exists nv, e. rewrite nth_error_set_nth_same by exact Ht. destruct TV as [A B]. auto.
       + destruct (is_pv p) eqn:PVp.
         * (* the publication of a Set *)
-          destruct p as [| | nv e | | |]; try discriminate. destruct TE2 as [-> ->].
+          destruct p as [| | nv e | | | |]; try discriminate. destruct TE2 as [-> ->].
           destruct TE1 as (nv' & E & ->). clear E.
           assert (Hin : In t (st_pendv s)) by (apply (si_pv SI); eauto).
           destruct (st_pendv s) as [|a [|b r]]; [destruct Hin| |contradiction].
@@ -392,7 +468,7 @@ Section Proofs.
       intros Ho. apply orb_false_iff in Ho. destruct Ho as [Ho1 Ho2]. pose proof (si_c SI Ho1) as V.
       rewrite match_pc. destruct (is_pc p') eqn:PC.
       + (* the save of an Update *)
-        destruct p' as [| | | nv e | |]; try discriminate. apply is_nil_false in Ho2. rewrite Ho2 in *. simpl.
+        destruct p' as [| | | nv e | | |]; try discriminate. apply is_nil_false in Ho2. rewrite Ho2 in *. simpl.
         simpl in TC. exists nv, e, (c_items (w_c (st_w s))).
         rewrite nth_error_set_nth_same by exact Ht. split; [reflexivity|]. split; [exact TC|].
         rewrite TE3. intros u Hu Hp.
@@ -405,7 +481,7 @@ Section Proofs.
         -- destruct c; discriminate T.
       + destruct (is_pc p) eqn:PCp.
         * (* the publication of an Update *)
-          destruct p as [| | | nv e | |]; try discriminate. destruct TE2 as [-> ->].
+          destruct p as [| | | nv e | | |]; try discriminate. destruct TE2 as [-> ->].
           destruct TE1 as [(nv' & E & ->)|(seen & n & r & E & _)]; [clear E|discriminate].
           assert (Hin : In t (st_pendc s)) by (apply (si_pc SI); eauto).
           destruct (st_pendc s) as [|a [|b r]]; [destruct Hin| |contradiction].
@@ -423,7 +499,7 @@ Section Proofs.
           rewrite (drop_tid_notin _ _ Hnin).
           destruct (match p, eff with PDel _ _, EPubC _ => true | _, _ => false end) eqn:DC.
           -- (* a Delete commits and publishes under the lock *)
-             destruct p as [| | | |seen n|]; try discriminate. destruct eff as [| |e| |]; try discriminate.
+             destruct p as [| | | |seen n| |]; try discriminate. destruct eff as [| |e| |]; try discriminate.
              assert (Ho3 : st_pendc s = []).
              { destruct p'; simpl in Ho2; try discriminate; apply is_nil_false; exact Ho2. }
              rewrite Ho3 in *.
@@ -452,7 +528,7 @@ Section Proofs.
                - apply in_app_or in Hu. destruct Hu as [Hu|[<-|[]]]; eauto. }
              assert (Hfresh : forall ro sk, plain_sub (mkCS t ro (w_c (st_w s)) [] sk) ->
                                          view_inv ro (cview (mkCS t ro (w_c (st_w s)) [] sk)) (c_items (w_c (st_w s)))).
-             { intros ro sk [_ UO]. apply cview_fresh; [exact UO|apply (i_sorted I)]. }
+             { intros ro sk UO. apply cview_fresh; [exact UO|apply (i_sorted I)]. }
              destruct (st_pendc s) as [|a [|b r]]; [| |contradiction].
              ++ intros u Hu Hp. apply Esubs in Hu. destruct Hu as [Hu|(ro & ->)]; [apply V; assumption|].
                 apply Hfresh. exact Hp.
@@ -460,7 +536,7 @@ Section Proofs.
                 split; [rewrite nth_error_set_nth_other; [exact Q0|]; intros ->; apply Hnin; left; reflexivity|].
                 split; [exact D|].
                 intros u Hu Hp. apply Esubs in Hu. destruct Hu as [Hu|(ro & ->)]; [apply Hv; assumption|].
-                pose proof (proj2 Hp) as UO. simpl in UO.
+                pose proof Hp as UO. unfold plain_sub in UO. simpl in UO.
                 assert (Es : (if ro_updates_only ro then [] else [a]) = [a]) by (rewrite UO; reflexivity).
                 rewrite Es in *. simpl. rewrite Nat.eqb_refl. simpl. apply Hfresh. exact Hp.
     - (* snapshots are ahead of committed threads only *)
@@ -481,6 +557,72 @@ Section Proofs.
         * destruct p; try discriminate. destruct TE2 as [_ ->]. right. reflexivity.
         * destruct p; try discriminate. destruct c; discriminate T.
       + rewrite nth_error_set_nth_other by exact Hne. eauto.
+    - (* ---- updates-only Collection subscribers ---- *)
+      intros Ho. apply orb_false_iff in Ho. destruct Ho as [Ho1 Ho2]. pose proof (si_cu SI Ho1) as V.
+      assert (Hdeliver : forall e l l',
+                 describes e l l' ->
+                 (forall u, In u (st_csubs s) -> uo_sub u -> uview_inv u l) ->
+                 forall u, In u (map (fun u => if existsb (Nat.eqb t) (cs_skip u) then u
+                                                else mkCS (cs_tid u) (cs_ro u) (cs_at u) (cs_evs u ++ [e]) (cs_skip u)) (st_csubs s)) ->
+                           uo_sub u -> uview_inv u l').
+      { intros e l l' D Hv u Hu Hp. apply in_map_iff in Hu. destruct Hu as (u0 & <- & Hu0).
+        assert (Hp0 : uo_sub u0).
+        { destruct (existsb (Nat.eqb t) (cs_skip u0)); [exact Hp|]. destruct u0; exact Hp. }
+        rewrite (si_uskip SI _ Hu0 (proj2 Hp0)). simpl.
+        specialize (Hv _ Hu0 Hp0). destruct u0 as [tid ro at_ evs sk]. simpl in *.
+        eapply uview_snoc; [apply Hp0|exact D|exact Hv]. }
+      rewrite match_pc. destruct (is_pc p') eqn:PC.
+      + destruct p' as [| | | nv e | | |]; try discriminate. apply is_nil_false in Ho2. rewrite Ho2 in *. simpl.
+        simpl in TC. exists nv, e, (c_items (w_c (st_w s))).
+        rewrite nth_error_set_nth_same by exact Ht. split; [reflexivity|]. split; [exact TC|].
+        rewrite TE3. exact V.
+      + destruct (is_pc p) eqn:PCp.
+        * destruct p as [| | | nv e | | |]; try discriminate. destruct TE2 as [-> ->].
+          destruct TE1 as [(nv' & E & ->)|(seen & n & r & E & _)]; [clear E|discriminate].
+          assert (Hin : In t (st_pendc s)) by (apply (si_pc SI); eauto).
+          destruct (st_pendc s) as [|a [|b r]]; [destruct Hin| |contradiction].
+          destruct Hin as [->|[]]. destruct V as (nv0 & e0 & lprev & Q0 & D & Hv). rewrite Q in Q0.
+          assert (E2 : e0 = e) by (inversion Q0; reflexivity). rewrite E2 in D.
+          unfold drop_tid. simpl. rewrite Nat.eqb_refl. simpl.
+          eapply Hdeliver; eauto.
+        * assert (Hnin : ~ In t (st_pendc s)).
+          { intros C. apply (si_pc SI) in C. destruct C as (p0 & Q0 & S0). rewrite Q in Q0. inversion Q0. subst. congruence. }
+          rewrite (drop_tid_notin _ _ Hnin).
+          destruct (match p, eff with PDel _ _, EPubC _ => true | _, _ => false end) eqn:DC.
+          -- destruct p as [| | | |seen n| |]; try discriminate. destruct eff as [| |e| |]; try discriminate.
+             assert (Ho3 : st_pendc s = []).
+             { destruct p'; simpl in Ho2; try discriminate; apply is_nil_false; exact Ho2. }
+             rewrite Ho3 in *.
+             assert (D : describes e (c_items (w_c (st_w s))) (c_items (w_c w'))).
+             { destruct p'; try discriminate; exact TC. }
+             eapply Hdeliver; eauto.
+          -- assert (Ec : c_items (w_c w') = c_items (w_c (st_w s))).
+             { destruct p'; try discriminate; destruct p; try discriminate; destruct eff; try discriminate; exact TC. }
+             rewrite Ec.
+             assert (Esubs : forall u, In u (match eff with
+                                             | EPubC e => map (fun u => if existsb (Nat.eqb t) (cs_skip u) then u
+                                                                        else mkCS (cs_tid u) (cs_ro u) (cs_at u) (cs_evs u ++ [e]) (cs_skip u)) (st_csubs s)
+                                             | ESubC ro => st_csubs s ++ [mkCS t ro (w_c (st_w s)) [] (if ro_updates_only ro then [] else st_pendc s)]
+                                             | _ => st_csubs s end) ->
+                                       In u (st_csubs s) \/ exists ro sk, u = mkCS t ro (w_c (st_w s)) [] sk).
+             { destruct eff; intros u Hu; auto.
+               - destruct TE1 as [(nv & -> & _)|(seen & n & r & -> & _)]; discriminate.
+               - apply in_app_or in Hu. destruct Hu as [Hu|[<-|[]]]; eauto. }
+             destruct (st_pendc s) as [|a [|b r]]; [| |contradiction].
+             ++ intros u Hu Hp. apply Esubs in Hu. destruct Hu as [Hu|(ro & sk & ->)]; [apply V; assumption|].
+                apply uview_fresh. apply Hp.
+             ++ destruct V as (nv0 & e0 & lprev & Q0 & D & Hv). exists nv0, e0, lprev.
+                split; [rewrite nth_error_set_nth_other; [exact Q0|]; intros ->; apply Hnin; left; reflexivity|].
+                split; [exact D|].
+                intros u Hu Hp. apply Esubs in Hu. destruct Hu as [Hu|(ro & sk & ->)]; [apply Hv; assumption|].
+                apply uview_fresh. apply Hp.
+    - (* updates-only subscriptions drop nothing *)
+      intros u Hu UO. destruct eff; try (apply (si_uskip SI); assumption).
+      + apply in_map_iff in Hu. destruct Hu as (u0 & E & Hu0).
+        destruct (existsb (Nat.eqb t) (cs_skip u0)); subst u; [apply (si_uskip SI); assumption|].
+        simpl in *. apply (si_uskip SI); assumption.
+      + apply in_app_or in Hu. destruct Hu as [Hu|[<-|[]]]; [apply (si_uskip SI); assumption|].
+        simpl in *. rewrite UO. reflexivity.
   Qed.
 
   Lemma run_snoc' pre t : run (pre ++ [t]) s0 = step t (run pre s0).
@@ -513,13 +655,57 @@ Section Proofs.
   Theorem converges_collection sched u :
     let s := run sched s0 in
     st_overlap s = false -> all_done s = true -> In u (st_csubs s) -> plain_sub u ->
-    forall id, vlookup id (cview u) = vlookup id (c_list r_filter (w_c (st_w s)) (ro_mask (cs_ro u)) None).
+    forall id, vlookup id (cview u) = vlookup id (c_list r_filter (w_c (st_w s)) (ro_mask (cs_ro u)) (ro_include (cs_ro u))).
   Proof.
     simpl. intros Ho D Hu Hp id. pose proof (sinv_run sched) as SI.
     destruct (done_no_pending SI D) as [_ Ec]. pose proof (si_c SI Ho) as V. rewrite Ec in V.
     destruct (V _ Hu Hp) as [_ Hv]. rewrite Hv.
+    symmetry.
+    apply (@list_shows _ _ r_filter str_ltb ltb_irrefl ltb_trans). apply (i_sorted (inv_at sched)).
+  Qed.
+
+  Theorem converges_collection_updates_only sched u :
+    let s := run sched s0 in
+    st_overlap s = false -> all_done s = true -> In u (st_csubs s) -> uo_sub u ->
+    forall id, touched u id ->
+               vlookup id (cview u) = vlookup id (c_list r_filter (w_c (st_w s)) (ro_mask (cs_ro u)) None).
+  Proof.
+    simpl. intros Ho D Hu Hp id Hid. pose proof (sinv_run sched) as SI.
+    destruct (done_no_pending SI D) as [_ Ec]. pose proof (si_cu SI Ho) as V. rewrite Ec in V.
+    destruct (V _ Hu Hp) as [_ Hv]. rewrite (Hv _ Hid).
     destruct Hp as [RI _]. rewrite <- RI. symmetry.
     apply (@list_shows _ _ r_filter str_ltb ltb_irrefl ltb_trans). apply (i_sorted (inv_at sched)).
+  Qed.
+
+  (* ---------- PullID: the collection stream restricted to one id (Pull.pull_id_from) ---------- *)
+  Lemma pull_id_fold id (cs : list (cchange M)) : forall view vs,
+    pull_id_from id cs = (vs, false) ->
+    vlookup id (fold_left (@apply_change M) cs view) =
+    match rev vs with v :: _ => Some (vc_value v) | [] => vlookup id view end.
+  Proof.
+    induction cs as [|c r IH]; intros view vs H; simpl in *.
+    - inversion H. reflexivity.
+    - destruct (String.eqb_spec (cc_id c) id) as [E|Hne]; simpl in H.
+      + unfold apply_change at 2. destruct (cc_kind c) eqn:K; destruct (cc_new c) as [v|] eqn:N; try discriminate;
+          destruct (pull_id_from id r) as [rest cl] eqn:R; inversion H; subst; simpl;
+          rewrite (IH _ _ eq_refl), vlookup_set_same;
+          destruct (rev rest) as [|v' t]; reflexivity.
+      + rewrite (IH _ _ H). destruct (rev vs); [|reflexivity].
+        unfold apply_change. destruct (cc_kind c); destruct (cc_new c); try reflexivity;
+          first [apply vlookup_set_other|apply vlookup_del_other]; congruence.
+  Qed.
+
+  (* a PullID subscription that has not ended holds the item's current value (nothing if absent) *)
+  Theorem converges_pull_id sched u id vs :
+    let s := run sched s0 in
+    st_overlap s = false -> all_done s = true -> In u (st_csubs s) -> plain_sub u ->
+    pull_id_from id (cstream u) = (vs, false) ->
+    last_value vs = vlookup id (c_list r_filter (w_c (st_w s)) (ro_mask (cs_ro u)) (ro_include (cs_ro u))).
+  Proof.
+    simpl. intros Ho D Hu Hp H.
+    rewrite <- (@converges_collection sched u Ho D Hu Hp id).
+    unfold cview, fold_view. rewrite (@pull_id_fold id _ [] _ H). unfold last_value.
+    destruct (rev vs); reflexivity.
   Qed.
 
   Theorem converges_value sched u :
